@@ -223,7 +223,11 @@ func init() {
 		return in.mkError(in.sprintf(f, variadic(args[1]))), true
 	})
 	reg("fmt.Sprintf", func(in *Interp, fn *ssa.Function, args []value) (value, bool) {
-		f := args[0].(*Str).MustConcrete("format")
+		fs := args[0].(*Str)
+		if _, ok := fs.Concrete(); !ok && len(variadic(args[1])) == 0 {
+			return in.sprintfOpaqueFormat(fs), true
+		}
+		f := fs.MustConcrete("format")
 		return in.sprintf(f, variadic(args[1])), true
 	})
 	reg("fmt.Sprint", func(in *Interp, fn *ssa.Function, args []value) (value, bool) {
@@ -299,4 +303,60 @@ func init() {
 		parts = append(parts, lit("\n"))
 		return concatStr(parts...), true
 	})
+}
+
+// sprintfOpaqueFormat: data used as the format string with no arguments: every '%' in it is rewritten by fmt
+// (e.g. "%20h" -> "%!h(MISSING)"); literal parts are formatted for real, string leaves of opaque JSON parts
+// that contain '%' are replaced by their rewritten text.
+func (in *Interp) sprintfOpaqueFormat(f *Str) *Str {
+	var out []*Str
+	for _, p := range parts(f) {
+		if c, ok := p.Concrete(); ok {
+			out = append(out, lit(fmt.Sprintf(c)))
+			continue
+		}
+		if p.Kind == sGhost && (p.G.Ctor == "json" || p.G.Ctor == "canon") {
+			t := mangleTree(p.G.Args[0].(*JNode))
+			if p.G.Ctor == "canon" {
+				out = append(out, mkJSONBytes(t, "canon"))
+			} else {
+				out = append(out, mkJSONBytes(t, p.G.Args[1].(string)))
+			}
+			continue
+		}
+		out = append(out, p)
+	}
+	return concatStr(out...)
+}
+
+func mangleTree(n *JNode) *JNode {
+	c := *n
+	switch n.Kind {
+	case jStr:
+		c.S = mangleStr(n.S)
+	case jArr:
+		c.Elems = nil
+		for _, e := range n.Elems {
+			c.Elems = append(c.Elems, mangleTree(e))
+		}
+	case jObj:
+		c.Keys, c.Vals = nil, nil
+		for i := range n.Keys {
+			c.Keys = append(c.Keys, mangleStr(n.Keys[i]))
+			c.Vals = append(c.Vals, mangleTree(n.Vals[i]))
+		}
+	}
+	return &c
+}
+
+func mangleStr(s *Str) *Str {
+	var out []*Str
+	for _, p := range parts(s) {
+		if c, ok := p.Concrete(); ok {
+			out = append(out, lit(fmt.Sprintf(c)))
+		} else {
+			out = append(out, p)
+		}
+	}
+	return concatStr(out...)
 }
